@@ -83,6 +83,9 @@ type w5Tree struct {
 	Factory     []w5File `json:"factory"`      // one entry per embedded factory file
 	MissingDirs []string `json:"missing_dirs"` // factory directories that do not exist
 	User        []w5File `json:"user"`         // files under user/, hidi.toml, blacklist, extras (State: intact = template content, modified = Data, absent)
+	// LinkedDir: this factory directory is a symbolic link to a directory kept elsewhere (the loader follows such
+	// links): its files are restored all the same
+	LinkedDir string `json:"linked_dir,omitempty"`
 	// Fault plan for this evaluation: empty = enumerate every crash point
 	Only *w5Fault `json:"only,omitempty"`
 }
@@ -187,6 +190,18 @@ func genW5(r *simrt.Rng) *w5Tree {
 	if r.Chance(0.2) {
 		userFile(configDir + "/factory/keyboard/my_own.toml")
 	}
+	if r.Chance(0.08) {
+		// one of the factory directories is a symbolic link to a directory kept elsewhere
+		cand := []string{configDir + "/factory", configDir + "/factory/keyboard", configDir + "/factory/gamepad"}
+		d := cand[r.Intn(len(cand))]
+		gone := false
+		for _, m := range tr.MissingDirs {
+			gone = gone || d == m || strings.HasPrefix(d, m+"/")
+		}
+		if !gone {
+			tr.LinkedDir = d
+		}
+	}
 	return tr
 }
 
@@ -209,9 +224,21 @@ func buildTree(tr *w5Tree) *simfs.FS {
 		return false
 	}
 	f.PutDir(configDir)
+	const linkedReal = "/home/user/dotfiles/hidi-factory-dir"
+	at := func(p string) string {
+		if tr.LinkedDir != "" && (p == tr.LinkedDir || strings.HasPrefix(p, tr.LinkedDir+"/")) {
+			return linkedReal + strings.TrimPrefix(p, tr.LinkedDir)
+		}
+		return p
+	}
 	for _, e := range template() {
 		if e.dir && isFactory(e.path) && !missing(e.path) {
-			f.PutDir(e.path)
+			if e.path == tr.LinkedDir {
+				f.PutDir(linkedReal)
+				f.PutSymlink(e.path, linkedReal)
+				continue
+			}
+			f.PutDir(at(e.path))
 		}
 		if e.dir && !isFactory(e.path) {
 			f.PutDir(e.path)
@@ -223,15 +250,15 @@ func buildTree(tr *w5Tree) *simfs.FS {
 		}
 		switch x.State {
 		case "intact":
-			f.Put(x.Path, tm[x.Path])
+			f.Put(at(x.Path), tm[x.Path])
 		case "truncated":
 			d := tm[x.Path]
 			if x.Cut <= len(d) {
 				d = d[:x.Cut]
 			}
-			f.Put(x.Path, d)
+			f.Put(at(x.Path), d)
 		case "modified":
-			f.Put(x.Path, x.Data)
+			f.Put(at(x.Path), x.Data)
 		}
 	}
 	// template user-side files that are not listed stay as in the template (README, placeholders)
@@ -250,11 +277,11 @@ func buildTree(tr *w5Tree) *simfs.FS {
 		}
 		switch x.State {
 		case "intact":
-			f.Put(x.Path, tm[x.Path])
+			f.Put(at(x.Path), tm[x.Path])
 		case "modified":
-			f.Put(x.Path, x.Data)
+			f.Put(at(x.Path), x.Data)
 		case "absent":
-			f.Delete(x.Path)
+			f.Delete(at(x.Path))
 		}
 	}
 	return f
